@@ -185,6 +185,122 @@ pub mod pkt {
 }
 
 // ------------------------------------------------------------------------------------------------
+// Pcap object (hook H4: Pcap::verif_from_header): the seven global-header properties (C16) and
+// their setters (C17).
+#[cfg(any(kani, p2sh_verif))]
+pub mod pcapobj {
+    use super::*;
+    use crate::builtins::pcap::Pcap;
+
+    // field k: (byte offset, width in bytes, signed)
+    const F: [(usize, usize, bool); 7] = [(0, 4, false), (4, 2, false), (6, 2, false), (8, 4, true), (12, 4, false), (16, 4, false), (20, 4, false)];
+
+    fn le(b: &[u8], off: usize, n: usize, signed: bool) -> i64 {
+        let mut v: u64 = 0;
+        let mut i = 0;
+        while i < n {
+            v |= (b[off + i] as u64) << (8 * i);
+            i += 1;
+        }
+        if signed && n == 4 {
+            (v as u32) as i32 as i64
+        } else {
+            v as i64
+        }
+    }
+
+    fn getters(p: &Pcap) -> [i64; 7] {
+        [int_of(p.get_magic_number()), int_of(p.get_version_major()), int_of(p.get_version_minor()), int_of(p.get_thiszone()),
+         int_of(p.get_sigfigs()), int_of(p.get_snaplen()), int_of(p.get_linktype())]
+    }
+
+    fn build(ns: bool) -> ([u8; 24], Pcap) {
+        let mut raw: [u8; 24] = sym::bytes::<24>();
+        // magic: one of the two accepted values, concrete per stamp (everything else is rejected:
+        // decided by `ghdr`; with a symbolic magic CBMC also explores the io::Error path, whose
+        // drop glue does not finish)
+        let m = if ns { 0xA1B23C4Du32 } else { 0xA1B2C3D4u32 }.to_le_bytes();
+        raw[0] = m[0];
+        raw[1] = m[1];
+        raw[2] = m[2];
+        raw[3] = m[3];
+        let h = match PcapGlobalHeader::from_bytes(&raw) {
+            Ok(h) => h,
+            Err(e) => {
+                std::mem::forget(e);
+                panic!("VERIF: well-formed global header rejected")
+            }
+        };
+        (raw, Pcap::verif_from_header(h))
+    }
+
+    /// C16: magic, major, minor, thiszone (signed), sigfigs, snaplen, linktype as laid out by the
+    /// pcap file format (little endian in the files p2sh accepts).
+    pub fn dec(ns: bool) {
+        let (raw, p) = build(ns);
+        let g = getters(&p);
+        let mut k = 0;
+        while k < 7 {
+            assert!(g[k] == le(&raw, F[k].0, F[k].1, F[k].2), "VERIF: pcap property differs from the global header field");
+            k += 1;
+        }
+        assert!(p.get_magic_number_raw() as i64 == g[0], "VERIF: pcap magic_number_raw differs from the magic property");
+        std::mem::forget(p);
+        vcover!(true, "end reached");
+    }
+
+    /// C17: one pcap setter from an arbitrary header: read-back (value reduced to the field width),
+    /// other properties unchanged, serialised header changed only inside the field.
+    pub fn set(k: usize, ns: bool, setter: impl Fn(&Pcap, Rc<Object>) -> Result<(), String>) {
+        let (raw, p) = build(ns);
+        let before = getters(&p);
+        let v = sym::i64_();
+        let arg = Rc::new(Object::Integer(v));
+        let keep = arg.clone();
+        let res = setter(&p, arg);
+        let after = getters(&p);
+        let out: Vec<u8> = (&*p.header.borrow()).into();
+        assert!(out.len() == 24, "VERIF: global header does not serialise to 24 bytes after an assignment");
+        let i = sym::usize_();
+        sym::assume(i < 24 && i < out.len());
+        let (off, n, signed) = F[k];
+        let in_range = if signed { v >= i32::MIN as i64 && v <= i32::MAX as i64 } else { v >= 0 && (n == 4 && v <= 0xFFFF_FFFF || n == 2 && v <= 0xFFFF) };
+        match res {
+            Ok(()) => {
+                // stored value: v reduced to the field's width (and sign)
+                let want: i64 = if n == 2 { (v as u16) as i64 } else if signed { (v as i32) as i64 } else { (v as u32) as i64 };
+                if in_range {
+                    assert!(want == v, "VERIF: harness range model inconsistent");
+                }
+                let mut j = 0;
+                while j < 7 {
+                    if j == k {
+                        assert!(after[j] == want, "VERIF: read-back after assignment differs from the value assigned");
+                    } else {
+                        assert!(after[j] == before[j], "VERIF: assignment changed another property");
+                    }
+                    j += 1;
+                }
+                if i >= off && i < off + n {
+                    assert!(out[i] == (want as u64).to_le_bytes()[i - off], "VERIF: assigned value not serialised little-endian in its field");
+                } else {
+                    assert!(out[i] == raw[i], "VERIF: serialised bytes changed outside the assigned field");
+                }
+            }
+            Err(e) => {
+                assert!(!in_range, "VERIF: setter rejected an in-range value");
+                assert!(out[i] == raw[i], "VERIF: rejected assignment changed the serialised bytes");
+                std::mem::forget(e);
+            }
+        }
+        std::mem::forget(out);
+        std::mem::forget(keep);
+        std::mem::forget(p);
+        vcover!(true, "end reached");
+    }
+}
+
+// ------------------------------------------------------------------------------------------------
 // C21: read(f, n) chunk accounting (hook H2: verif_read_from_file).
 
 /// A reader over a symbolic content that honours exactly the documented contract of
